@@ -191,6 +191,9 @@ def encode(case, res, vals, with_store=True):
     T, R = seg
     if T[0] != "assign":
         raise Skip("target is not an assignment")
+    forms = case.get("forms", {})
+    if any(forms.get(a, ("explicit",))[0] != "explicit" for a in names_of_stmt(T) if a in arrays):
+        raise Skip("assumed-shape / allocatable declaration")
     nm = mf.Names()
     for v, _, _ in case["decls"]:
         nm.get(v)
@@ -294,7 +297,7 @@ def correspondence(ctx, cases, FX):
     """cases: list of (case, res).  -> (number of cases in the model subset, [(case, res, why)] that disagree)"""
     terms, kept = [], []
     rng = ctx.rng("corr-store")
-    cap = ctx.pick(150, 10 ** 9)        # quick tier: bounded number of coqc-evaluated cases, spread over all kinds
+    cap = ctx.pick(300, 10 ** 9)        # quick tier: bounded number of coqc-evaluated cases, spread over all kinds
     if len(cases) > cap * 1.4:
         step = len(cases) / (cap * 1.4)
         cases = [cases[int(k * step)] for k in range(int(cap * 1.4))]
